@@ -66,7 +66,7 @@ def gen_cases(ctx, n):
         elif i < 2:
             sc = "wrap"          # quick: lh4/lh5 ring wraps (16 KiB)
         elif i < (14 if ctx.tier == "quick" else 66) and (ctx.tier != "quick" or meth not in ("lhx", "lh7")):
-            sc = "ringend"       # a copy ending exactly at the end of the ring (and one byte either side), then look-backs over the seam
+            sc = "ringend-exact" if i < 8 else "ringend"       # a copy ending exactly at the end of the ring (and one byte either side), then look-backs over the seam
         elif k < 0.08:
             sc = "flat"          # flat code table sent through a single-code temporary table
         elif k < 0.75:
